@@ -10,6 +10,10 @@ import PqlModel.Props.C07OperatorIRExtend
 import PqlModel.Props.C07OperatorIRProject
 import PqlModel.Props.C07OperatorIRLet
 import PqlModel.Props.C07OperatorIRTabular
+import PqlModel.Props.C07OperatorIRSummarize
+import PqlModel.Props.C07OperatorIRRender
+import PqlModel.Props.C07OperatorIRJoin
+import PqlModel.Props.C07OperatorIRParse
 #print axioms Pql.C07.C07_precedence_table
 #print axioms Pql.C07.C07_spec_prec_eq_model
 #print axioms Pql.C07.C07_join_kinds
@@ -83,3 +87,12 @@ import PqlModel.Props.C07OperatorIRTabular
 #print axioms Pql.OpIR.C07_tabularExpr_ir
 #print axioms Pql.OpIR.C07_tabularExpr_ir_fueled
 #print axioms Pql.OpIR.tabular_fuel_cx
+#print axioms Pql.OpIR.C07_summarizeOperator_ir
+#print axioms Pql.OpIR.C07_renderProperty_ir
+#print axioms Pql.OpIR.C07_renderOperator_ir
+#print axioms Pql.OpIR.C07_joinOperator_ir
+#print axioms Pql.OpIR.join_fuel_cx
+#print axioms Pql.OpIR.C07_firstParse_ir
+#print axioms Pql.OpIR.C07_firstParse_stmt
+#print axioms Pql.OpIR.C07_Parse_tokens_ir
+#print axioms Pql.OpIR.C07_Parse_ir
